@@ -344,6 +344,10 @@ def opDestroy (s : State) (h : Hnd) : State × Out :=
     let s2 := { s1 with db := setRowDb s1.db o.cls o.id none }
     (setObj s2 h { o with obsolete := true, inCache := false }, .ok)
 
+/-- `clear`: `{fkID: None}` when the referrer shows the id being deleted, else `{}` -/
+def clearArg (v : Val) (r : Id) : List (Col × Inp) :=
+  if v = some (Int.ofNat r) then [(0, .ok none)] else []
+
 /-- `k.get(id, selectResults=row)` for a referencing row -/
 def refGet (cfg : Cfg) (s : State) (hr : Hnd) : Option (Cls × Id) → State × Out
   | none => opRefresh cfg s hr
@@ -351,7 +355,7 @@ def refGet (cfg : Cfg) (s : State) (hr : Hnd) : Option (Cls × Id) → State × 
 
 /-- one referencing row inside `destroySelf` of row (T, r): `k.get(id, selectResults=row)` (refresh of the
     held instance unless dirty / a new instance), then for `cascade='null'`: `getattr(row, 'fkID') == r` and
-    `row.set(fkID=None)` (or `row.set()`), for `cascade=True`: `row.destroySelf()` -/
+    `row.set(fkID=None)` (or `row.set()`) followed by `row.syncUpdate()` when the class is lazy, for `cascade=True`: `row.destroySelf()` -/
 def opRefRow (cfg : Cfg) (s : State) (T : Cls) (r : Id) (hr : Hnd) (fresh : Option (Cls × Id)) : State × Out :=
   let r1 := refGet cfg s hr fresh
   if r1.2 ≠ .ok then r1 else
@@ -367,7 +371,11 @@ def opRefRow (cfg : Cfg) (s : State) (T : Cls) (r : Id) (hr : Hnd) (fresh : Opti
       | .null =>
         let r2 := opRead cfg r1.1 hr 0
         match r2.2 with
-        | .val v => opSet cfg r2.1 hr (if v = some (Int.ofNat r) then [(0, .ok none)] else []) false
+        | .val v =>
+          let r3 := opSet cfg r2.1 hr (clearArg v r) false
+          -- a lazy referrer is flushed at once (`row.syncUpdate()`): the reference must be gone from the
+          -- table before the referenced row is deleted; everything pending on it is written with it
+          if r3.2 = .ok && cfg.lazyUpdate o'.cls then opSyncUpdate r3.1 hr false else r3
         | out => (r2.1, out)
 
 def opRefSteps (cfg : Cfg) (s : State) (T : Cls) (r : Id) : List RefStep → State × Out
